@@ -360,7 +360,7 @@ func ruleC10ParseBeforeStore(c *Ctx, rule string) {
 		}
 		n := 0
 		for _, fn := range WithAnon(onMsg) {
-			for _, mu := range mapUpdatesOfField([]*ssa.Function{fn}, d.fPKs) {
+			for _, mu := range mapUpdatesOfField(deepFuncs(fn), d.fPKs) {
 				n++
 				ok := hasFact(FactsAt(mu), func(f Fact) bool {
 					if f.Op != token.EQL || !isNilConst(f.Y) {
